@@ -190,6 +190,8 @@ class scrypt(KDFAdapter):
 
 class blake2b(KDFAdapter, MACAdapter, HashAdapter):
     def __init__(self, *, length=64):
+        if not isinstance(length, int) or not 1 <= length <= hashlib.blake2b.MAX_DIGEST_SIZE:
+            raise ValueError('Invalid digest size')
         self.digest_size = length
 
     def generate_derivation_params(self):
@@ -253,6 +255,11 @@ class gclmulchunker(ChunkerAdapter):
     alignment = 4
 
     def __init__(self, *, min_length=MIN_LENGTH, max_length=MAX_LENGTH):
+        for value in (min_length, max_length):
+            # Zero-length chunks would silently drop all data
+            if not isinstance(value, int) or value < 1:
+                raise ValueError(f'Invalid chunk length ({value!r})')
+
         if min_length > max_length:
             raise ValueError(
                 f'Minimum length ({min_length}) is greater '
